@@ -35,6 +35,9 @@ def flagset(ctx: Ctx, t: Term, _depth: int = 0) -> Optional[FrozenSet[str]]:
         src = ctx.ev.enum_value(t, 0)
         if isinstance(src, Call) and isinstance(src.func, Ext) and src.func.name.endswith('auto'):
             return frozenset({t.name})
+        if isinstance(src, Const) and type(src.value) is int and src.value > 0:
+            fb = ctx.ev.flag_bits(t)    # bits written out (1 << n): the base members that own them
+            return frozenset(n for _, n in fb) if fb is not None else None
         return flagset(ctx, src, _depth + 1)
     if isinstance(t, Op) and t.op in ('|', '&') and len(t.args) == 2:
         a, b = flagset(ctx, t.args[0], _depth + 1), flagset(ctx, t.args[1], _depth + 1)
